@@ -658,3 +658,189 @@ def attach_helpers(cls):
             if r < 0: return S.neg(x)
         return S.fabs(x)
     cls.sym_fabs = sym_fabs
+
+
+# ---------------------------------------------------------------------------------------------------------------
+# libstdc++ std::string (SSO layout {char* p; size_t len; union{char buf[16]; size_t cap;}}) out-of-line members
+# ---------------------------------------------------------------------------------------------------------------
+def install_strings(it):
+    E = it.externals
+    S_ = '_ZNSt7__cxx1112basic_stringIcSt11char_traitsIcESaIcEE'
+    SC = '_ZNKSt7__cxx1112basic_stringIcSt11char_traitsIcESaIcEE'
+    def reg(name, f):
+        def wrapped(interp, args, _f=f, _n=name):
+            interp.used_models.add(_n)
+            return _f(interp, args)
+        E[name] = wrapped
+    def s_get(it, this):
+        p = it.load(this, 8, K_PTR); n = it.load(this + 8, 8, K_INT)
+        if type(n) is not int: n = it.concretize_int(n)
+        return p, n
+    def s_cap(it, this):
+        p = it.load(this, 8, K_PTR)
+        return 15 if p == this + 16 else it.load(this + 16, 8, K_INT)
+    def s_bytes(it, this):
+        p, n = s_get(it, this)
+        return [it.load(p + k, 1, K_INT) for k in range(n)]
+    def s_set(it, this, data):
+        """data: list of byte values (ints or symbolic)"""
+        n = len(data)
+        p = it.load(this, 8, K_PTR)
+        cap = s_cap(it, this)
+        if n > cap:
+            newcap = max(n, 2 * cap)
+            q = it.alloc(newcap + 1, 'heap', 'string(%d)' % (newcap + 1))
+            if p != this + 16:
+                it.free_region(p, 'string buffer')
+            it.store(this, 8, q); it.store(this + 16, 8, newcap)
+            p = q
+        for k, b in enumerate(data):
+            it.store(p + k, 1, b)
+        it.store(p + n, 1, 0)
+        it.store(this + 8, 8, n)
+    it.str_get = lambda this: bytes(b if type(b) is int else 63 for b in s_bytes(it, this))
+    it.str_set = lambda this, b: s_set(it, this, list(b))
+    def str_init(this, b):
+        it.store(this, 8, this + 16); it.store(this + 8, 8, 0); it.store(this + 16, 1, 0)
+        s_set(it, this, list(b))
+    it.str_init = str_init
+
+    def m_create(it, a):
+        this, pcap, old = a
+        cap = it.load(pcap, 8, K_INT)
+        if type(cap) is not int: cap = it.concretize_int(cap)
+        if cap > (1 << 62): it.throw_std('_ZTISt12length_error', 'basic_string::_M_create')
+        if cap > old and cap < 2 * old:
+            cap = 2 * old
+            it.store(pcap, 8, cap)
+        return it.alloc(cap + 1, 'heap', 'string(%d)' % (cap + 1))
+    reg(S_ + '9_M_createERmm', m_create)
+    def m_append(it, a):
+        this, s, n = a
+        if type(n) is not int: n = it.concretize_int(n)
+        extra = [it.load(s + k, 1, K_INT) for k in range(n)]
+        s_set(it, this, s_bytes(it, this) + extra)
+        return this
+    reg(S_ + '9_M_appendEPKcm', m_append)
+    reg(S_ + '6appendEPKcm', m_append)
+    reg(S_ + '6appendEPKc', lambda it, a: m_append(it, [a[0], a[1], len(it.read_cstring(a[1]))]))
+    def m_assign(it, a):
+        this, other = a
+        if this != other: s_set(it, this, s_bytes(it, other))
+        return None
+    reg(S_ + '9_M_assignERKS4_', m_assign)
+    def m_replace(it, a):
+        this, pos, len1, s, len2 = a
+        cur = s_bytes(it, this)
+        new = [it.load(s + k, 1, K_INT) for k in range(len2)]
+        s_set(it, this, cur[:pos] + new + cur[pos + len1:])
+        return this
+    reg(S_ + '10_M_replaceEmmPKcm', m_replace)
+    def m_replace_aux(it, a):
+        this, pos, n1, n2, c = a
+        cur = s_bytes(it, this)
+        s_set(it, this, cur[:pos] + [c & 0xFF] * n2 + cur[pos + n1:])
+        return this
+    reg(S_ + '14_M_replace_auxEmmmc', m_replace_aux)
+    def m_mutate(it, a):
+        this, pos, len1, s, len2 = a
+        cur = s_bytes(it, this)
+        new = [it.load(s + k, 1, K_INT) for k in range(len2)] if s else [0] * len2
+        s_set(it, this, cur[:pos] + new + cur[pos + len1:])
+        return None
+    reg(S_ + '9_M_mutateEmmPKcm', m_mutate)
+    def m_erase(it, a):
+        this, pos, n = a
+        cur = s_bytes(it, this)
+        s_set(it, this, cur[:pos] + cur[pos + n:])
+        return None
+    reg(S_ + '8_M_eraseEmm', m_erase)
+    def reserve(it, a):
+        this, n = a[0], (a[1] if len(a) > 1 else 0)
+        cur = s_bytes(it, this)
+        if n > s_cap(it, this):
+            q = it.alloc(n + 1, 'heap', 'string(%d)' % (n + 1))
+            p = it.load(this, 8, K_PTR)
+            if p != this + 16: it.free_region(p, 'string buffer')
+            it.store(this, 8, q); it.store(this + 16, 8, n)
+            s_set(it, this, cur)
+        return None
+    reg(S_ + '7reserveEm', reserve)
+    reg(S_ + '7reserveEv', lambda it, a: None)
+    def m_construct_fill(it, a):
+        this, n, c = a
+        it.store(this, 8, this + 16); it.store(this + 8, 8, 0)
+        s_set(it, this, [c & 0xFF] * n)
+        return None
+    reg(S_ + '12_M_constructEmc', m_construct_fill)
+    def resize(it, a):
+        this, n, c = a[0], a[1], (a[2] if len(a) > 2 else 0)
+        cur = s_bytes(it, this)
+        s_set(it, this, (cur + [c & 0xFF] * n)[:n])
+        return None
+    reg(S_ + '6resizeEmc', resize)
+    def m_dispose(it, a):
+        this = a[0]
+        p = it.load(this, 8, K_PTR)
+        if p != this + 16: it.free_region(p, 'string buffer')
+        return None
+    reg(S_ + '10_M_disposeEv', m_dispose)
+    reg(S_ + 'D1Ev', m_dispose); reg(S_ + 'D2Ev', m_dispose)
+    def copy_ctor(it, a):
+        this, other = a
+        it.store(this, 8, this + 16); it.store(this + 8, 8, 0)
+        s_set(it, this, s_bytes(it, other))
+        return None
+    reg(S_ + 'C1ERKS4_', copy_ctor); reg(S_ + 'C2ERKS4_', copy_ctor)
+    def ctor_cstr(it, a):
+        this, s = a[0], a[1]
+        it.store(this, 8, this + 16); it.store(this + 8, 8, 0)
+        s_set(it, this, list(it.read_cstring(s)))
+        return None
+    reg(S_ + 'C1EPKcRKS3_', ctor_cstr); reg(S_ + 'C2EPKcRKS3_', ctor_cstr)
+    def compare_cstr(it, a):
+        x = bytes(b if type(b) is int else 63 for b in s_bytes(it, a[0])); y = it.read_cstring(a[1])
+        return 0 if x == y else ((1 if x > y else -1) & 0xFFFFFFFF)
+    reg(SC + '7compareEPKc', compare_cstr)
+    def compare_str(it, a):
+        x = bytes(b if type(b) is int else 63 for b in s_bytes(it, a[0])); y = bytes(b if type(b) is int else 63 for b in s_bytes(it, a[1]))
+        return 0 if x == y else ((1 if x > y else -1) & 0xFFFFFFFF)
+    reg(SC + '7compareERKS4_', compare_str)
+    def find_cstr(it, a):
+        this, s, pos, n = a
+        x = bytes(b if type(b) is int else 63 for b in s_bytes(it, this)); y = it.read_bytes(s, n)
+        r = x.find(y, pos)
+        return r if r >= 0 else (1 << 64) - 1
+    reg(SC + '4findEPKcmm', find_cstr)
+    def find_chr(it, a):
+        this, c, pos = a
+        x = bytes(b if type(b) is int else 63 for b in s_bytes(it, this))
+        r = x.find(bytes([c & 0xFF]), pos)
+        return r if r >= 0 else (1 << 64) - 1
+    reg(SC + '4findEcm', find_chr)
+    def substr(it, a):
+        sret, this, pos, n = a
+        cur = s_bytes(it, this)
+        if pos > len(cur): it.throw_std('_ZTISt12out_of_range', 'basic_string::substr')
+        it.store(sret, 8, sret + 16); it.store(sret + 8, 8, 0)
+        s_set(it, sret, cur[pos:pos + n] if n < (1 << 63) else cur[pos:])
+        return None
+    reg(SC + '6substrEmm', substr)
+    def swap(it, a):
+        x = s_bytes(it, a[0]); y = s_bytes(it, a[1])
+        s_set(it, a[0], y); s_set(it, a[1], x)
+        return None
+    reg(S_ + '4swapERS4_', swap)
+    # vsnprintf-based std::to_string(double) etc.
+    def xx_to_string(it, a):
+        # __gnu_cxx::__to_xstring<std::string,char>(vsnprintf, n, fmt, ...): sret, fn, n, fmt, varargs
+        sret, fn, n, fmt = a[0], a[1], a[2], a[3]
+        f = it.read_cstring(fmt).decode()
+        vals = a[4:]
+        try:
+            txt = f % tuple(v if type(v) in (int, float) else 0 for v in vals)
+        except Exception:
+            txt = '?'
+        it.str_init(sret, txt.encode())
+        return None
+    reg('_ZN9__gnu_cxx12__to_xstringINSt7__cxx1112basic_stringIcSt11char_traitsIcESaIcEEEcEET_PFiPT0_mPKS8_P13__va_list_tagEmSB_z', xx_to_string)
